@@ -274,6 +274,14 @@ def run(ctx):
                                                                  float((got - want).abs().max()) if got.shape == want.shape else float('nan')),
                                       {'fn': name, 'view': vname, 'shape': list(x.shape)}, {'what': 'memory_layout', 'fn': name})
                         break
+    # ---- a float32 image (what load_image returns) converts to the same colours whatever global settings of torch are in force: default dtype float64
+    # (a double-precision pipeline elsewhere in the program), grad mode switched off globally.  Boundary colours included (black, white, greys, primaries).
+    from ..lib import settings as ST
+    bound = torch.tensor([[0., 0., 0.], [1., 1., 1.], [0.5, 0.5, 0.5], [0.2, 0.2, 0.2], [1., 0., 0.], [0., 1., 0.], [0., 0., 1.], [1., 1., 0.], [0.3, 0.6, 0.9],
+                          [0.9, 0.3, 0.6], [0.0031308, 0.04045, 0.5], [1e-6, 0., 1e-6]], dtype=torch.float32)
+    img32 = bound.t().reshape(1, 3, 3, 4).contiguous()
+    for name, f in fns:
+        ST.differential(ctx, 'C15 ' + name + ' (float32 image with boundary colours)', lambda f=f: f(img32.clone()), rtol=1e-4, atol=1e-5, cls={'fn': name})
     # ---- executable tie of the regenerated TENSOR-LEVEL definitions (layouts, HSV, LMS pipeline) on whole images
     from .gencolour import check_generated_colour
     check_generated_colour(ctx)
